@@ -244,3 +244,120 @@ __CPROVER_ensures(g_holder == 0 && self->_flag == ST_Free && g_released_with_rel
     harness='  SP* s; SP_unlock(s);', dropped=[], trusted=[], min_obligations=5)
 
 UNITS = [lm_cleanup, sm_cleanup, remove_blocking, cleanup_loggers, sp_lock, sp_unlock]
+
+# ------------------------------------------------------------------------------------------ LoggerManager: lookup / insert / create_or_get by name
+# names are abstracted to integer keys (std::string comparison = a strict total order); the registry is a vector SORTED by
+# key without duplicates: one tracked logger at index g_p, every other element is a representative whose key is only known
+# to respect the order relative to the tracked one and to the last lower_bound answer
+SORTED = r'''
+typedef uint64_t Key;                                 /* a logger / sink name */
+typedef struct LGk { Key g_key; bool valid; } LGk;    /* LoggerBase: its name, valid flag */
+typedef struct KVec { size_t n; size_t g_p; LGk* tracked; LGk* other; size_t g_inserts; } KVec;
+size_t g_lb_pos; Key g_lb_target; bool g_lb_valid;    /* the last answer of std::lower_bound */
+size_t g_rep_i; bool g_rep_valid;                    /* which element the representative currently stands for */
+Key nondet_key(void);
+/* element access: the tracked logger at g_p, a representative elsewhere; the representative's key respects the sorted order */
+static inline LGk* KVec_get(KVec* v, size_t i)
+{
+  __CPROVER_assert(i < v->n, "registry index within size");
+  if (i == v->g_p) return v->tracked;
+  if (g_rep_valid && g_rep_i == i) return v->other;                                                  /* the same element twice: the same key */
+  Key k = nondet_key();
+  __CPROVER_assume(i < v->g_p ? k < v->tracked->g_key : k > v->tracked->g_key);                      /* sorted, no duplicates */
+  __CPROVER_assume(!g_lb_valid || (i < g_lb_pos ? k < g_lb_target : k >= g_lb_target));              /* consistent with lower_bound */
+  v->other->g_key = k; g_rep_valid = true; g_rep_i = i; return v->other;
+}
+/* std::lower_bound(begin, end, target, name-less-than) on the sorted registry: the first position whose name is not less than target */
+size_t LOWER_BOUND(KVec* v, Key target)
+__CPROVER_requires(__CPROVER_is_fresh(v, sizeof(*v)))
+__CPROVER_assigns(g_lb_pos, g_lb_target, g_lb_valid)
+__CPROVER_ensures(RET <= v->n && g_lb_pos == RET && g_lb_target == target && g_lb_valid)
+__CPROVER_ensures(v->g_p < v->n ==> ((v->g_p < RET) == (v->tracked->g_key < target)));
+/* vector::insert(position, element): the tracked index shifts when the new element goes in front of it */
+static inline void KVec_insert(KVec* v, size_t pos, LGk* e) { __CPROVER_assert(pos <= v->n, "insert position within [0, size]"); __CPROVER_assert(pos == g_lb_pos && g_lb_valid && e->g_key == g_lb_target, "C17: a new entry is inserted exactly where lower_bound of its own name points (the registry stays sorted)"); if (v->g_p < v->n && pos <= v->g_p) v->g_p++; v->n++; v->g_inserts++; g_lb_valid = false; g_rep_valid = false; }
+'''
+LMK_PRELUDE = SORTED + r'''
+typedef struct Spinlock { int d; } Spinlock;
+typedef struct LMk { KVec _loggers; Spinlock _spinlock; bool g_has_env_level; } LMk;
+#define T_(s) ((s)->_loggers.tracked)
+'''
+LB_RULES = [(r'std::lower_bound\(_loggers\.begin\(\),\s*_loggers\.end\(\),\s*(?:target|logger->get_logger_name\(\)),\s*\[\]\(std::unique_ptr<LoggerBase> const& a, std::string const& b\)\s*\{\s*return a->get_logger_name\(\) < b;\s*\}\s*\)',
+             lambda m: 'LOWER_BOUND(&_loggers, %s)' % ('target' if 'target,' in m.group(0) else 'logger->g_key'), '!'),
+            (r'auto\s+search_it\s*=', 'size_t const search_it =')]
+lm_find = dict(
+    name='LM.find', primary='C17', props={'C17'}, kind='L',
+    desc='LoggerManager::_find_logger: a lookup by name returns exactly the registered logger of that name, or nothing',
+    structs=[], prelude=LMK_PRELUDE, enforce='LM__find_logger', replace=['LOWER_BOUND'],
+    funcs=[dict(src=dict(header=LMH, cls='LoggerManager', name='_find_logger'), src_params=['target'], cfun='LM__find_logger', sig='LGk* LM__find_logger(LMk* self, Key target)', ret_default='NULL',
+                cls_c='LM', member_fields=['_loggers'],
+                pre_rules=LB_RULES + [(r'search_it\s*!=\s*std::end\(_loggers\)', '(search_it != _loggers.n)'), (r'search_it->get\(\)->get_logger_name\(\)\s*==\s*target', '(KVec_get(&_loggers, search_it)->g_key == target)'),
+                                      (r'\?\s*search_it->get\(\)', '? KVec_get(&_loggers, search_it)')],
+                contract=r'''
+__CPROVER_requires(__CPROVER_is_fresh(self, sizeof(*self)) && __CPROVER_is_fresh(T_(self), sizeof(LGk)) && __CPROVER_is_fresh(self->_loggers.other, sizeof(LGk)) && self->_loggers.g_p < self->_loggers.n && !g_lb_valid && !g_rep_valid)
+__CPROVER_assigns(g_lb_pos, g_lb_target, g_lb_valid, g_rep_i, g_rep_valid, self->_loggers.other->g_key)
+__CPROVER_ensures(target == T_(self)->g_key ==> RET == T_(self)) /*@ C17 "looking a logger up by its name finds that logger (every registered logger, the tracked one being arbitrary)" */
+__CPROVER_ensures(RET != NULL ==> RET->g_key == target) /*@ C17 "a lookup never returns a logger of another name" */
+''')],
+    harness='  LMk* m; Key k; LM__find_logger(m, k);', allow_assume=True,
+    dropped=['logger names as integer keys (std::string operator< / == as a strict total order)', 'unique_ptr ownership'],
+    trusted=['std::lower_bound on a sorted range returns the first position whose element is not less than the target', 'the registry is sorted by name without duplicates (kept by LM.insert; representative elements respect the order: shim assumptions)'],
+    assumes=['shim: keys of representative elements respect the sorted order and the last lower_bound answer'], min_obligations=10)
+lm_insert = dict(
+    name='LM.insert', primary='C17', props={'C17'}, kind='L',
+    desc='LoggerManager::_insert_logger: a new logger goes exactly where lower_bound of its name points, so the registry stays sorted and every other logger keeps being found',
+    structs=[], prelude=LMK_PRELUDE, enforce='LM__insert_logger', replace=['LOWER_BOUND'],
+    funcs=[dict(src=dict(header=LMH, cls='LoggerManager', name='_insert_logger'), src_params=['logger'], cfun='LM__insert_logger', sig='void LM__insert_logger(LMk* self, LGk* logger)',
+                cls_c='LM', member_fields=['_loggers'],
+                pre_rules=LB_RULES + [(r'_loggers\.insert\(search_it,\s*static_cast<std::unique_ptr<LoggerBase>&&>\(logger\)\)\s*;', 'KVec_insert(&_loggers, search_it, logger);')],
+                contract=r'''
+__CPROVER_requires(__CPROVER_is_fresh(self, sizeof(*self)) && __CPROVER_is_fresh(T_(self), sizeof(LGk)) && __CPROVER_is_fresh(self->_loggers.other, sizeof(LGk)) && __CPROVER_is_fresh(logger, sizeof(LGk)) && self->_loggers.g_p < self->_loggers.n && self->_loggers.n < (((size_t)1) << 40) && !g_lb_valid)
+__CPROVER_requires(logger->g_key != T_(self)->g_key)      /* create_or_get_logger inserts only a name that was not found */
+__CPROVER_assigns(g_lb_pos, g_lb_target, g_lb_valid, g_rep_valid, self->_loggers.n, self->_loggers.g_p, self->_loggers.g_inserts)
+__CPROVER_ensures(self->_loggers.n == OLD(self->_loggers.n) + 1 && self->_loggers.g_inserts == OLD(self->_loggers.g_inserts) + 1) /*@ C17 "exactly one entry is added" */
+__CPROVER_ensures(self->_loggers.g_p == OLD(self->_loggers.g_p) + ((logger->g_key < T_(self)->g_key) ? 1 : 0)) /*@ C17 "every logger already registered stays in name order relative to the new one (it is still found by name afterwards)" */
+''')],
+    harness='  LMk* m; LGk* l; LM__insert_logger(m, l);',
+    dropped=['logger names as integer keys', 'unique_ptr move'], trusted=['std::lower_bound as in LM.find; std::vector::insert shifts the elements behind the position'], min_obligations=10)
+
+COG_PRELUDE = SORTED + r'''
+typedef struct Spinlock { int d; } Spinlock;
+typedef struct LMk { KVec _loggers; Spinlock _spinlock; bool g_has_env_level; } LMk;
+#define T_(s) ((s)->_loggers.tracked)
+bool g_locked; size_t g_news, g_inserts_done, g_level_sets; LGk* g_new; Key g_new_key; bool g_find_miss_allowed;
+void LOCK_GUARD(Spinlock* l) __CPROVER_assigns(g_locked) __CPROVER_ensures(g_locked);
+/* _find_logger by its contract (unit LM.find), extended over the entry _insert_logger just added (unit LM.insert) */
+LGk* LM__find_logger(LMk* self, Key target)
+__CPROVER_requires(g_locked) /*@ C17 "the registry is only searched under its lock" */
+__CPROVER_assigns(self->_loggers.other->g_key)
+__CPROVER_ensures(RET == self->_loggers.other ==> self->_loggers.other->g_key == target)
+__CPROVER_ensures(target == T_(self)->g_key ==> RET == T_(self))
+__CPROVER_ensures((g_inserts_done == 1 && target == g_new_key) ==> RET == g_new)
+__CPROVER_ensures(RET != NULL ==> (RET == T_(self) ? target == T_(self)->g_key : (RET == g_new ? (g_inserts_done == 1 && target == g_new_key) : (RET == self->_loggers.other && target != T_(self)->g_key))));
+LGk* LOGGER_new(Key name) __CPROVER_assigns(g_news, g_new, g_new_key) __CPROVER_ensures(__CPROVER_is_fresh(RET, sizeof(LGk)) && RET->g_key == name && RET->valid && g_news == OLD(g_news) + 1 && g_new == RET && g_new_key == name);
+void LM__insert_logger(LMk* self, LGk* logger)
+__CPROVER_requires(g_locked && logger == g_new && logger->g_key != T_(self)->g_key) /*@ C17 "a logger is inserted only under the lock and only when no logger of that name is registered" */
+__CPROVER_assigns(g_inserts_done) __CPROVER_ensures(g_inserts_done == OLD(g_inserts_done) + 1);
+void LG_set_log_level_from_env(LGk* l) __CPROVER_assigns(g_level_sets) __CPROVER_ensures(g_level_sets == OLD(g_level_sets) + 1);
+static inline bool LGk_is_valid_logger(LGk* l) { return l->valid ? 1 : 0; }
+'''
+lm_create_or_get = dict(
+    name='LM.create_or_get', primary='C17', props={'C17'}, kind='S',
+    desc='LoggerManager::create_or_get_logger: idempotent by name - an existing logger of that name is returned untouched, otherwise exactly one logger is created, inserted and returned; all under the registry lock',
+    structs=[], prelude=COG_PRELUDE, enforce='LM_create_or_get_logger', replace=['LOCK_GUARD', 'LM__find_logger', 'LOGGER_new', 'LM__insert_logger', 'LG_set_log_level_from_env'],
+    funcs=[dict(src=dict(header=LMH, cls='LoggerManager', name='create_or_get_logger', nth=0), cfun='LM_create_or_get_logger', sig='LGk* LM_create_or_get_logger(LMk* self, Key logger_name)', ret_default='NULL',
+                cls_c='LM', member_fields=['_loggers', '_spinlock'], siblings=['_find_logger', '_insert_logger'], methods={'is_valid_logger': 'LGk_is_valid_logger'},
+                pre_rules=[(r'LockGuard\s+const\s+lock\s*\{\s*_spinlock\s*\}\s*;', 'LOCK_GUARD(&_spinlock);'), (r'LoggerBase\s*\*\s*logger_ptr', 'LGk* logger_ptr'),
+                           (r'std::unique_ptr<LoggerBase>\s+new_logger\s*\{\s*new\s+TLogger\s*\{.*?\}\s*\}\s*;', 'LGk* new_logger = LOGGER_new(logger_name);'),
+                           (r'_insert_logger\(static_cast<std::unique_ptr<LoggerBase>&&>\(new_logger\)\)', '_insert_logger(new_logger)'),
+                           (r'logger_ptr\s*&&\s*_env_log_level', '(logger_ptr && self->g_has_env_level)'), (r'logger_ptr->set_log_level\(\*_env_log_level\)\s*;', 'LG_set_log_level_from_env(logger_ptr);')],
+                contract=r'''
+__CPROVER_requires(__CPROVER_is_fresh(self, sizeof(*self)) && __CPROVER_is_fresh(T_(self), sizeof(LGk)) && __CPROVER_is_fresh(self->_loggers.other, sizeof(LGk)) && !g_locked && g_news == 0 && g_inserts_done == 0 && g_level_sets == 0)
+__CPROVER_assigns(g_locked, g_news, g_new, g_new_key, g_inserts_done, g_level_sets, self->_loggers.other->g_key)
+__CPROVER_ensures(logger_name == T_(self)->g_key ==> (RET == T_(self) && g_news == 0 && g_inserts_done == 0 && g_level_sets == 0)) /*@ C17 "asking for a registered name returns that very logger and creates nothing (idempotent from any thread)" */
+__CPROVER_ensures(g_news == g_inserts_done && g_news <= 1 && (g_news == 1 ==> (RET == g_new && g_new_key == logger_name))) /*@ C17 "otherwise exactly one logger of that name is created, registered and returned" */
+__CPROVER_ensures(RET != NULL && RET->g_key == logger_name) /*@ C17 "the returned logger always carries the requested name" */
+''')],
+    harness='  LMk* m; Key k; LM_create_or_get_logger(m, k);',
+    dropped=['logger names as integer keys', 'the constructor arguments of the new logger (sinks, pattern options, clock)', 'asserts (NDEBUG)', 'LockGuard RAII unlock'],
+    trusted=['_find_logger / _insert_logger by the contracts units LM.find / LM.insert prove (restated over the tracked logger and the entry just inserted)'], min_obligations=15)
+UNITS += [lm_find, lm_insert, lm_create_or_get]
